@@ -31,7 +31,7 @@ class C17(CheckBase):
     stubbed_components = ['SimFileAccess (the medium, in memory)']
 
     def budget(self, tier):
-        return 600 if tier == 'quick' else 15000
+        return 1500 if tier == 'quick' else 20000
 
     def time_cap(self, tier):
         return 600 if tier == 'quick' else 5400
@@ -119,7 +119,7 @@ class C17(CheckBase):
             nvol = rng.randint(1, 6)
             # keep volumes small enough that boundary-k fits in the 10-bit start sector
             cuts = sorted(rng.sample(range(2, tracks), min(nvol - 1, tracks - 2))) if nvol > 1 else []
-            if len(cuts) >= 1 and rng.chance(0.35):
+            if len(cuts) >= 1 and rng.chance(0.5):
                 # some volume of exactly one track (the legal minimum)
                 k = rng.below(len(cuts))
                 nxt = cuts[k] + 1
